@@ -48,6 +48,8 @@ where
         }
 
         loop {
+            #[cfg(agdb_verif)]
+            crate::verif::probe_tick();
             let current_pos = self.pos;
 
             self.pos = if self.pos == self.data.capacity() - 1 {
